@@ -8,6 +8,7 @@ mod server;
 mod c10;
 mod c14;
 mod c15;
+mod c05s;
 mod c10s;
 mod c13s;
 mod c18s;
@@ -50,6 +51,7 @@ fn main() {
         "C10" => c10::run(&tier, replay.as_deref()),
         "C14" => c14::run(&tier, replay.as_deref()),
         "C15" => c15::run(&tier, replay.as_deref()),
+        "C05S" => c05s::run(&tier),
         "C10S" => c10s::run(&tier),
         "C13S" => c13s::run(&tier),
         "C18S" => c18s::run(&tier),
